@@ -409,6 +409,19 @@ def proc_stage(res, rng, vh, scen, size=2, maxnow=5, maxev=3, nmodel=120, nfree=
             sc = {"tr": base, "size_ms": size_ms, "ticks": 0, "groups": rng.choice([1, 2]), "free": True, "steps": steps}
             mine[base] = sc
             f.write(json.dumps(sc) + "\n")
+        # a manual trigger and then one row queue up behind a reader that holds the window lock across an interval boundary
+        for _ in range(max(3, nfree // 3)):
+            base += 1
+            size_ms = rng.choice([40, 60, 80])
+            steps = [{"a": "add", "id": 1}, {"a": "lockrace", "id": 2}, {"a": "sleep", "gap": size_ms * 1000}]
+            i = 2
+            for _k in range(rng.choice([3, 6])):
+                i += 1
+                steps.append({"a": "add", "id": i})
+                steps.append({"a": "sleep", "gap": rng.choice([5000, 20000])})
+            sc = {"tr": base, "size_ms": size_ms, "ticks": 0, "groups": 1, "free": True, "steps": steps}
+            mine[base] = sc
+            f.write(json.dumps(sc) + "\n")
     rc, out = vlib.sh([vh, "proc", "-scen", sc_path, "-out", tr_path, "-par", "24"], 1500)
     if rc != 0:
         raise vlib.Inconclusive("proc driver failed:\n" + out[-3000:])
